@@ -1,9 +1,9 @@
-\* (M) (O): owner vocabulary, one node, two reservations, two pods
+\* (M) (O): owner vocabulary, one node, two reservations, one pod (every owner term kind matches or misses it)
 SPECIFICATION Spec
 CONSTANTS
   Nodes = {"n1"}
   Uids = {"r1", "r2"}
-  Pods = {"p1", "p2"}
+  Pods = {"p2"}
   RSpecs <- MatchSpecs
   Reqs <- ReqsI
   PodAttr <- PA2
